@@ -5,12 +5,14 @@
 // until its own return item - so a linear script is a re-entrant program.
 //
 // World (compile time):
-//   W_OBJ       0 EventDispatcher | 1 EventQueue
+//   W_OBJ       0 EventDispatcher | 1 EventQueue | 2 CallbackList behind a thin adapter (event key ignored, always 1): exercises the
+//               CallbackList specialisations of ScopedRemover / CounterRemover / ConditionalRemover with the same scripts
 //   W_THREADING 0 SingleThreading | 1 MultipleThreading | 2 GeneralThreading<SpinLock>
 //   W_KEY       0 int | 1 std::string | 2 tracked struct with operator< | 3 tracked struct with std::hash and == | 4 enum class
 //   W_ARG       0 Payload by value | 1 const Payload & | 2 Payload &
 //   W_MODE      0 default policies, calls exclude the event (key, args...) | 1 ArgumentPassingIncludeEvent: prototype (Key, Arg), key is an argument
 //               2 ArgumentPassingExcludeEvent | 3 user getEvent policy: key taken from the payload | 4 user getEvent(key, payload by value)
+//               5 user getEvent(first, payload) that ignores its first argument (key from the payload); calls pass a DECOY key first
 //   W_MAP       0 default | 1 std::map | 2 std::unordered_map (needs hash) | 3 user map template
 //   W_FILTER    0 none | 1 MixinFilter
 //   W_ORDER     0 std::list | 1 OrderedQueueList ascending by key | 2 descending by key | 3 ascending by argument value
@@ -67,7 +69,7 @@
 #ifndef W_CANCONT
 #define W_CANCONT 0     // 1: Policies::canContinueInvoking(args) = "the argument value is not 2"
 #endif
-#define NEVENTS 2
+#define NEVENTS (W_OBJ == 2 ? 1 : 2)
 
 using namespace vf;
 
@@ -205,6 +207,9 @@ struct Pol
 #elif W_MODE == 4
 	// user policy that looks at a later argument and takes it BY VALUE (as tests/unittest "customized event" does)
 	static Key getEvent(const Key & k, Payload p) { return p.uid == -1 ? makeKey(0) : k; }
+#elif W_MODE == 5
+	// the policy is NOT the identity on the leading argument: what the caller passes first is the other event's key
+	static Key getEvent(const Key &, const Payload & p) { return makeKey(p.key); }
 #endif
 #if W_MAP == 1
 	template <typename K, typename V> using Map = std::map<K, V>;
@@ -236,8 +241,27 @@ typedef void Proto(ArgT);
 #endif
 #if W_OBJ == 0
 typedef eventpp::EventDispatcher<Key, Proto, Pol> Q;
-#else
+#elif W_OBJ == 1
 typedef eventpp::EventQueue<Key, Proto, Pol> Q;
+#else
+typedef eventpp::CallbackList<Proto, Pol> CLType;
+struct ListQ     // a CallbackList seen through the dispatcher-shaped calls the interpreter makes
+{
+	typedef CLType::Handle Handle;
+	typedef CLType::Callback Callback;
+	typedef Key Event;
+	typedef CLType::Mutex Mutex;
+	CLType list;
+	Handle appendListener(const Key &, const Callback & cb) { return list.append(cb); }
+	Handle prependListener(const Key &, const Callback & cb) { return list.prepend(cb); }
+	Handle insertListener(const Key &, const Callback & cb, const Handle & before) { return list.insert(cb, before); }
+	bool removeListener(const Key &, const Handle & h) { return list.remove(h); }
+	bool hasAnyListener(const Key &) const { return ! list.empty(); }
+	bool ownsHandle(const Key &, const Handle & h) const { return list.ownsHandle(h); }
+	template <typename F> void forEach(const Key &, F && f) const { list.forEach(std::forward<F>(f)); }
+	void dispatch(const Key &, Payload & p) const { list(p); }
+};
+typedef ListQ Q;
 #endif
 typedef Q::Handle Handle;
 
@@ -246,7 +270,21 @@ static Q * q;
 // a second dispatcher (only ScopedRemovers put listeners there; its events are logged as keys 3,4) and the removers
 alignas(16) static unsigned char g_storage2[sizeof(Q) + 64];
 static Q * q2;
+#if W_OBJ == 2
+typedef eventpp::ScopedRemover<CLType> SR;
+#define SR_TARGET(qq) ((qq)->list)
+#define SR_APPEND(r, key, cb) (r).append(cb)
+#define SR_PREPEND(r, key, cb) (r).prepend(cb)
+#define SR_REMOVE(r, key, h) (r).remove(h)
+#define SR_RETARGET(r, qq) (r).setCallbackList((qq)->list)
+#else
 typedef eventpp::ScopedRemover<Q> SR;
+#define SR_TARGET(qq) (*(qq))
+#define SR_APPEND(r, key, cb) (r).appendListener(key, cb)
+#define SR_PREPEND(r, key, cb) (r).prependListener(key, cb)
+#define SR_REMOVE(r, key, h) (r).removeListener(key, h)
+#define SR_RETARGET(r, qq) (r).setDispatcher(*(qq))
+#endif
 enum { MaxR = 3 };
 static std::unique_ptr<SR> R[MaxR + 1];
 static int RT[MaxR + 1];            // which dispatcher the harness told remover r to work on (mirrors the commands, for logging only)
@@ -331,6 +369,11 @@ static bool onPredicate(const Payload & p)
 	return verdict;
 }
 
+#if W_MODE == 5
+static Key callKey(int e) { return makeKey(e == 1 ? 2 : 1); }
+#else
+static Key callKey(int e) { return makeKey(e); }
+#endif
 template <typename Obj> static void callDispatch(Obj & o, int e, Payload & p)
 {
 #if W_MODE == 1
@@ -338,7 +381,7 @@ template <typename Obj> static void callDispatch(Obj & o, int e, Payload & p)
 #elif W_MODE == 3
 	(void)e; o.dispatch(p);
 #else
-	if(p.uid % 2) { Key k = makeKey(e); o.dispatch(k, p); } else { o.dispatch(makeKey(e), p); }
+	if(p.uid % 2) { Key k = callKey(e); o.dispatch(k, p); } else { o.dispatch(callKey(e), p); }
 #endif
 }
 static void dispatch(int e, int v, int d = 1)
@@ -369,7 +412,7 @@ static void enqueue(int e, int v)
 #if W_MODE == 3
 		q->enqueue(p);
 #else
-		Key k = makeKey(e);
+		Key k = callKey(e);
 		q->enqueue(k, p);
 #endif
 	}
@@ -378,9 +421,9 @@ static void enqueue(int e, int v)
 		q->enqueue(Payload(uid, v, e));
 #elif W_ARG == 2
 		Payload p(uid, v, e);
-		q->enqueue(makeKey(e), p);
+		q->enqueue(callKey(e), p);
 #else
-		q->enqueue(makeKey(e), Payload(uid, v, e));
+		q->enqueue(callKey(e), Payload(uid, v, e));
 #endif
 	}
 	evx("nq", e, v, 0, 0, uid);
@@ -423,8 +466,21 @@ static bool step()
 	else if(k == "il") { int id = (int)H.size() + 1; Handle b = handleOf(o.b); H.push_back(q->insertListener(makeKey(o.a), Cb(id), b)); HE.push_back(o.a); evx("il", o.a, o.b, 0, id, 0); }
 #if W_CALLBACK == 0
 	// CounterRemover / ConditionalRemover: the helper object is a temporary, gone right after the registration
+#if W_OBJ == 2
+	else if(k == "ac") { int id = (int)H.size() + 1; H.push_back(eventpp::counterRemover(q->list).append(Cb(id), o.b)); HE.push_back(o.a); evx("ac", o.a, o.b, 0, id, 0); }
+	else if(k == "ak") { int id = (int)H.size() + 1; H.push_back(eventpp::conditionalRemover(q->list).append(Cb(id), Cond{id})); HE.push_back(o.a); evx("ak", o.a, 0, 0, id, 0); }
+	else if(k == "pc") { int id = (int)H.size() + 1; H.push_back(eventpp::counterRemover(q->list).prepend(Cb(id), o.b)); HE.push_back(o.a); evx("pc", o.a, o.b, 0, id, 0); }
+	else if(k == "ic") { int id = (int)H.size() + 1; Handle b = handleOf(o.a / 10); H.push_back(eventpp::counterRemover(q->list).insert(Cb(id), b, o.b)); HE.push_back(o.a % 10); evx("ic", o.a % 10, o.b, o.a / 10, id, 0); }
+	else if(k == "qk") { int id = (int)H.size() + 1; H.push_back(eventpp::conditionalRemover(q->list).prepend(Cb(id), Cond{id})); HE.push_back(o.a); evx("qk", o.a, 0, 0, id, 0); }
+	else if(k == "ik") { int id = (int)H.size() + 1; Handle b = handleOf(o.b); H.push_back(eventpp::conditionalRemover(q->list).insert(Cb(id), b, Cond{id})); HE.push_back(o.a); evx("ik", o.a, 0, o.b, id, 0); }
+#else
 	else if(k == "ac") { int id = (int)H.size() + 1; H.push_back(eventpp::counterRemover(*q).appendListener(makeKey(o.a), Cb(id), o.b)); HE.push_back(o.a); evx("ac", o.a, o.b, 0, id, 0); }
 	else if(k == "ak") { int id = (int)H.size() + 1; H.push_back(eventpp::conditionalRemover(*q).appendListener(makeKey(o.a), Cb(id), Cond{id})); HE.push_back(o.a); evx("ak", o.a, 0, 0, id, 0); }
+	else if(k == "pc") { int id = (int)H.size() + 1; H.push_back(eventpp::counterRemover(*q).prependListener(makeKey(o.a), Cb(id), o.b)); HE.push_back(o.a); evx("pc", o.a, o.b, 0, id, 0); }
+	else if(k == "ic") { int id = (int)H.size() + 1; Handle b = handleOf(o.a / 10); H.push_back(eventpp::counterRemover(*q).insertListener(makeKey(o.a % 10), Cb(id), b, o.b)); HE.push_back(o.a % 10); evx("ic", o.a % 10, o.b, o.a / 10, id, 0); }
+	else if(k == "qk") { int id = (int)H.size() + 1; H.push_back(eventpp::conditionalRemover(*q).prependListener(makeKey(o.a), Cb(id), Cond{id})); HE.push_back(o.a); evx("qk", o.a, 0, 0, id, 0); }
+	else if(k == "ik") { int id = (int)H.size() + 1; Handle b = handleOf(o.b); H.push_back(eventpp::conditionalRemover(*q).insertListener(makeKey(o.a), Cb(id), b, Cond{id})); HE.push_back(o.a); evx("ik", o.a, 0, o.b, id, 0); }
+#endif
 #endif
 #if W_CALLBACK == 0
 	// conditionalFunctor (runs when the argument value is even) / argumentAdapter (converts the argument to the listener's own type)
@@ -438,17 +494,17 @@ static bool step()
 	// ScopedRemover o.a
 	else if(k == "sa" || k == "sp") {
 		int id = (int)H.size() + 1; SR & r = *R[o.a];
-		H.push_back(k == "sa" ? r.appendListener(makeKey(o.b), Cb(id)) : r.prependListener(makeKey(o.b), Cb(id))); HE.push_back(o.b);
+		H.push_back(k == "sa" ? SR_APPEND(r, makeKey(o.b), Cb(id)) : SR_PREPEND(r, makeKey(o.b), Cb(id))); HE.push_back(o.b);
 		evx(k.c_str(), o.a, o.b + 2 * (RT[o.a] - 1), 0, id, 0);
 	}
-	else if(k == "sr") { int e = (o.b >= 1 && o.b <= (int)HE.size()) ? HE[o.b - 1] : 1; bool r = R[o.a]->removeListener(makeKey(e), handleOf(o.b)); evx("sr", o.a, o.b, 0, r ? 1 : 0, 0); }
+	else if(k == "sr") { int e = (o.b >= 1 && o.b <= (int)HE.size()) ? HE[o.b - 1] : 1; bool r = SR_REMOVE(*R[o.a], makeKey(e), handleOf(o.b)); evx("sr", o.a, o.b, 0, r ? 1 : 0, 0); }
 	else if(k == "sx") { R[o.a]->reset(); evx("sx", o.a, 0, 0, 0, 0); }
-	else if(k == "st") { R[o.a]->setDispatcher(o.b == 1 ? *q : *q2); RT[o.a] = o.b; evx("st", o.a, o.b, 0, 0, 0); }
+	else if(k == "st") { SR_RETARGET(*R[o.a], o.b == 1 ? q : q2); RT[o.a] = o.b; evx("st", o.a, o.b, 0, 0, 0); }
 	else if(k == "sc") { R[o.b].reset(new SR(std::move(*R[o.a]))); RT[o.b] = RT[o.a]; evx("sc", o.a, o.b, 0, 0, 0); }
 	else if(k == "sm") { *R[o.b] = std::move(*R[o.a]); RT[o.b] = RT[o.a]; evx("sm", o.a, o.b, 0, 0, 0); }
 	else if(k == "ss") { if((o.a + o.b) % 2) R[o.a]->swap(*R[o.b]); else R[o.b]->swap(*R[o.a]); std::swap(RT[o.a], RT[o.b]); evx("ss", o.a, o.b, 0, 0, 0); }
 	else if(k == "sd") { R[o.a].reset(); evx("sd", o.a, 0, 0, 0, 0); }
-	else if(k == "sn") { R[o.a].reset(new SR(o.b == 1 ? *q : *q2)); RT[o.a] = o.b; evx("sn", o.a, o.b, 0, 0, 0); }
+	else if(k == "sn") { R[o.a].reset(new SR(SR_TARGET(o.b == 1 ? q : q2))); RT[o.a] = o.b; evx("sn", o.a, o.b, 0, 0, 0); }
 	else if(k == "rl") { bool r = q->removeListener(makeKey(o.a), handleOf(o.b)); evx("rl", o.a, o.b, 0, r ? 1 : 0, 0); }
 	else if(k == "hl") { bool r = q->hasAnyListener(makeKey(o.a)); evx("hl", o.a, 0, 0, r ? 1 : 0, 0); }
 	else if(k == "ol") { bool r = q->ownsHandle(makeKey(o.a), handleOf(o.b)); evx("ol", o.a, o.b, 0, r ? 1 : 0, 0); }
@@ -556,7 +612,7 @@ int main(int argc, char ** argv)
 				q = new (g_storage) Q();
 				std::memset(g_storage2, W_FILL, sizeof(g_storage2));
 				q2 = new (g_storage2) Q();
-				R[1].reset(new SR(*q)); RT[1] = 1; for(int r = 2; r <= MaxR; ++r) R[r].reset();
+				R[1].reset(new SR(SR_TARGET(q))); RT[1] = 1; for(int r = 2; r <= MaxR; ++r) R[r].reset();
 				H.clear(); HE.clear();
 #if W_FILTER == 1
 				FH.clear();
@@ -587,7 +643,7 @@ int main(int argc, char ** argv)
 		q = new (g_storage) Q();
 		std::memset(g_storage2, W_FILL, sizeof(g_storage2));
 		q2 = new (g_storage2) Q();
-		R[1].reset(new SR(*q)); RT[1] = 1;
+		R[1].reset(new SR(SR_TARGET(q))); RT[1] = 1;
 		ip = 0; g_uid = 0; g_depth = 0; g_nested = false; g_noDrain = false;
 		while(ip < script.size()) step();
 		epilogue();
